@@ -79,6 +79,14 @@ func loadProgram(root string) (*Program, error) {
 	}
 	p.All = pkgs
 	p.Fset = pkgs[0].Fset
+	// one loop form for the rules (see desugar.go)
+	packages.Visit(pkgs, nil, func(pk *packages.Package) {
+		if strings.HasPrefix(pk.PkgPath, modPath) && pk.TypesInfo != nil {
+			for _, f := range pk.Syntax {
+				desugarFile(pk.TypesInfo, pk.Types, f)
+			}
+		}
+	})
 	mainPkg := p.ByID[modPath+"/cmd/lox"]
 	if mainPkg == nil {
 		return nil, fmt.Errorf("package %s/cmd/lox not found", modPath)
